@@ -8,6 +8,7 @@ import (
 	"fmt"
 	"os"
 	"path/filepath"
+	"runtime/debug"
 	"sort"
 	"strconv"
 
@@ -121,6 +122,7 @@ func main() {
 			if r := recover(); r != nil {
 				rp.Fail("analyser", "panic", "-", fmt.Sprintf("analyser panic (fails closed): %v", r))
 				if os.Getenv("VERIF_DEBUG") != "" {
+					fmt.Fprintf(os.Stderr, "%s\n", debug.Stack())
 					panic(r)
 				}
 			}
